@@ -115,10 +115,23 @@ reg("C04", "proof",
     assumptions=["the disparity axis of the cost volume starts and ends on integers (grid_estimation; sub-pixel samples lie between them)"])
 other("C05", "glue contracts on the nine <step>_check_conf callbacks (the step's completed configuration is stored under the user's "
       "key, margins recorded once, no other field written); defaults, domains, idempotence, user dictionary untouched:")
-other("C07", "frame of CrossCheckingAccurate.disparity_checking and of the validation_run callback proved for all inputs: the step "
-      "writes the left validity mask, its confidence band and attributes only -- never a disparity map, never the right dataset, "
-      "never the images (" + FRAME_NOTE + "); mask_border postcondition (border pixels at bit 0 only); the per-pixel "
-      "mismatch/occlusion classification:", trusted=FRAME_TRUSTED)
+reg("C07", "proof",
+    "CrossCheckingAccurate.disparity_checking proved for every image size, interval and threshold over symbolic datasets (row loop "
+    "invariant; the row-wise numpy code -- np.where selections, gathers through index vectors, np.tile families, masked updates "
+    "of local copies, scatters -- is executed symbolically by a positional selection algebra): a previously valid pixel p keeps "
+    "its mask iff its correspondent q = p + rint(dL(p)) lies in the right image and |dL(p) + dR(q)| <= threshold (NaN right "
+    "disparities counting as +inf); otherwise 512 (mismatch) is added when some d of the interval has rint(dR(p+d)) == -d and "
+    "256 (occlusion) when none does -- never both (exact uint16 arithmetic); already invalid pixels are not re-examined; no "
+    "left or right disparity is modified; the last confidence band holds |dL(p)+dR(q)| (NaN where no correspondent was "
+    "examined); border pixels end with bit 0 only (mask_border's contract).  Frames of disparity_checking and of the "
+    "validation_run callback (" + FRAME_NOTE + ").  By the bounded stand-in only: whole validation steps through the state "
+    "machine, right-map production.",
+    trusted=FRAME_TRUSTED + [
+        "assumed contract on AbstractCostVolumeConfidence.allocate_confidence_map (xarray drop_dims / DataArray construction): returns "
+        "its dataset arguments with a rebuilt confidence_measure variable whose last band is the map passed; other variables keep their arrays",
+        "assumed contract: np.sum of a boolean 2-D family along axis 1 is >= 0 and is 0 iff no element holds",
+        "numpy.rint is round-half-to-even on exact reals; astype(int) truncates"],
+    assumptions=["a valid left pixel carries a finite disparity; the window offset fits twice in the image (mask_border's precondition)"])
 other("C09", "frame of cv_masked proved: masking writes the cost volume and its validity mask only -- not the caller's disparity "
       "grids nor the images (" + FRAME_NOTE + "); interval independence of the costs and final disparities inside the interval:",
       trusted=FRAME_TRUSTED)
